@@ -538,6 +538,39 @@ def run(repo: Repo, ctx) -> None:
                  for c in ast.walk(f.node))
         ctx.ob('C18.R4', f'edgeql.codegen.{fname}', ok,
                f'{fname} does not quote through {want}', f.loc, sample=want)
+    # needs_quoting() answers "no" for any string that still contains the
+    # module separator, so a qualified name must be cut at *every* `::`
+    # before its components are quoted
+    nq = repo.func(f'{QUOTE}.needs_quoting')
+    sep_exempt = any(isinstance(n, ast.If) and "'::' in" in norm(n.test)
+                     and any(isinstance(x, ast.Return) and norm(x.value) ==
+                             'False' for x in n.body)
+                     for n in ast.walk(nq.node))
+    f = repo.func(f'{QLCG}.ident_to_str')
+    src = f.params()[0]
+    calls = [c for c in ast.walk(f.node) if isinstance(c, ast.Call)
+             and norm(c.func).endswith('quote_ident') and c.args]
+    full = {}
+    for comp_ in ast.walk(f.node):
+        gens = getattr(comp_, 'generators', None)
+        its = [(g_.target, g_.iter) for g_ in gens] if gens else (
+            [(comp_.target, comp_.iter)] if isinstance(comp_, ast.For)
+            else [])
+        for tg, it in its:
+            if isinstance(it, ast.Call) and isinstance(
+                    it.func, ast.Attribute) and it.func.attr == 'split' \
+                    and norm(it.func.value) == src and len(it.args) == 1 \
+                    and not it.keywords and norm(it.args[0]) == "'::'":
+                full[norm(tg)] = True
+    bad = [norm(c.args[0]) for c in calls if norm(c.args[0]) not in full]
+    ctx.ob('C18.R4', 'edgeql.codegen.ident_to_str:every-component',
+           bool(calls) and (not bad or not sep_exempt),
+           f'ident_to_str quotes {bad} which is not a component of '
+           f'`{src}.split(\'::\')`: a part that still contains `::` is '
+           f'never quoted (needs_quoting answers False for it), so a '
+           f'module path component that is a keyword or contains '
+           f'punctuation is printed bare', f.loc,
+           sample="for part in ident.split('::'): quote_ident(part)")
 
 
 def _marker_search_ok(fn, test, text):
